@@ -110,6 +110,7 @@ def main(ck, tier, w):
         return obs, probs, r
     for obs, probs, r in chains.pmap(one, res.replay):
         ck.evals()
+        ck.traces()
         if obs['start'] > 0 or obs['end'] != -1:
             ck.distinct((obs['T'], obs['start'], obs['end'], obs['cb']))
         ck.sample({'scenario': {k: obs[k] for k in ('T', 'start', 'end', 'cb', 'rev')}, 'expected_heights': obs['heights']})
@@ -135,9 +136,10 @@ def main(ck, tier, w):
         n, cb, s, e, r0 = j[:5]
         h0 = j[5] if len(j) > 5 else 0
         tr, r = traced_run(w, r0, n, cb, s, e, h0=h0)
-        v = tracecheck.validate(tr)
-        return j, tr, r, v
-    for j, tr, r, v in chains.pmap(tjob, jobs, 8):
+        return j, tr, r
+    ran = chains.pmap(tjob, jobs, 8)
+    verdicts = tracecheck.validate_many([x[1] for x in ran], batch=3)
+    for (j, tr, r), v in zip(ran, verdicts):
         n, cb, s, e = j[:4]
         h0 = j[5] if len(j) > 5 else 0
         ck.traces()
